@@ -394,7 +394,8 @@ static void doEval(const vj::Value& cfg, const vj::Value& act, const std::string
    std::string dest = "[]";
    int extra = 0;
    std::string paFile;
-   if (presrc == "file") {
+   std::string envName;
+   if (presrc == "file" || presrc == "both") {
       extra |= Handler::hfReadProgArg;
       mkdir((gScratch + "/.progargs").c_str(), 0700);
       std::string base = prog;
@@ -402,24 +403,24 @@ static void doEval(const vj::Value& cfg, const vj::Value& act, const std::string
       if (sl != std::string::npos) base = base.substr(sl + 1);
       paFile = gScratch + "/.progargs/" + base + ".pa";
       std::ofstream f(paFile, std::ios::binary | std::ios::trunc);
-      const vj::Value& pre = act["pre"];
-      for (size_t k = 0; k < pre.size(); ++k) f << act["prelines"][k].bytes();   // raw file lines incl. newline decisions
+      f << act["filetext"].bytes();          // raw file content, final newline present or not as generated
       f.close();
       setenv("HOME", gScratch.c_str(), 1);
-   } else if (presrc == "env") {
+   }
+   if (presrc == "env" || presrc == "both") {
       extra |= Handler::hfEnvVarArgs;
-      std::string name = prog;
-      auto sl = name.find_last_of('/');
-      if (sl != std::string::npos) name = name.substr(sl + 1);
-      for (auto& c : name) c = static_cast<char>(toupper(static_cast<unsigned char>(c)));
-      setenv(name.c_str(), act["envstr"].bytes().c_str(), 1);
-      paFile = "ENV:" + name;
+      envName = prog;
+      auto sl = envName.find_last_of('/');
+      if (sl != std::string::npos) envName = envName.substr(sl + 1);
+      for (auto& c : envName) c = static_cast<char>(toupper(static_cast<unsigned char>(c)));
+      setenv(envName.c_str(), act["envstr"].bytes().c_str(), 1);
    }
    std::unique_ptr<Built> b;
    try {
       b = build(cfg, grouped, extra);
    } catch (const std::exception& e) {
-      vj::Line().str("e", "Eval").str("mode", mode).raw("pre", dump(act["pre"])).raw("argv", dump(act["argv"])).raw("cmd", dump(act["cmd"]))
+      vj::Line().str("e", "Eval").str("mode", mode).str("presrc", presrc).raw("filetext", "[]").raw("envstr", "[]")
+         .raw("argv", dump(act["argv"])).raw("cmd", dump(act["cmd"]))
          .str("out", "setup").raw("dest", "[]").raw("tag", dump(act["tag"])).str("what", e.what()).emit();
       if (grouped) teardownGroups();
       return;
@@ -443,9 +444,12 @@ static void doEval(const vj::Value& cfg, const vj::Value& act, const std::string
          dest += "]";
       }
    }
-   if (presrc == "file") unlink(paFile.c_str());
-   else if (presrc == "env") unsetenv(paFile.c_str() + 4);
-   vj::Line().str("e", "Eval").str("mode", mode).raw("pre", dump(act["pre"])).raw("argv", dump(act["argv"])).raw("cmd", dump(act["cmd"]))
+   if (!paFile.empty()) unlink(paFile.c_str());
+   if (!envName.empty()) unsetenv(envName.c_str());
+   vj::Line().str("e", "Eval").str("mode", mode).str("presrc", presrc)
+      .raw("filetext", act["filetext"].kind == vj::Value::Arr ? dump(act["filetext"]) : "[]")
+      .raw("envstr", act["envstr"].kind == vj::Value::Arr ? dump(act["envstr"]) : "[]")
+      .raw("argv", dump(act["argv"])).raw("cmd", dump(act["cmd"]))
       .str("out", out).raw("dest", dest).raw("tag", dump(act["tag"])).str("what", what).emit();
    b.reset();
    if (grouped) teardownGroups();
